@@ -51,7 +51,8 @@ MapOps ==
   \cup {MapDel_(x, k) : x \in {"m", "n"}, k \in {StrV("k"), IntV(1), ListKey}}
   \cup {O1("len", "m"), InO("m", IntV(7))}
 StrOps ==
-  {O("strlit", "s", "", NilV, NilV, NilV, NilV, "", <<"a", "b", "c">>), O("strlit", "s", "", NilV, NilV, NilV, NilV, "", <<>>), Alias("t", "s")}
+  {O("strlit", "s", "", NilV, NilV, NilV, NilV, "", <<"a", "b", "c">>), O("strlit", "s", "", NilV, NilV, NilV, NilV, "", <<>>), Alias("t", "s"),
+   O("strlit", "s", "", NilV, NilV, NilV, NilV, "", <<"a", "xc3", "xa9">>)}          \* "aé": a string is its BYTES (len, index, slice bounds), "xHH" names a byte of a multi-byte character
   \cup {Read(x, IntV(i)) : x \in {"s", "t"}, i \in {-1, 0, 2, 3}} \cup {Read("s", StrV("x"))}
   \cup {Write(x, IntV(i), StrV("x")) : x \in {"s", "t"}, i \in {-1, 0, 1, 3, 4}} \cup {Write("s", NilV, StrV("x"))}
   \cup {AppendO("s", StrV("z")), AppendO("t", IntV(7))}
